@@ -12,12 +12,17 @@ RULE = ("cases = (traversal op, fiber(s) of payload depth 0-1 incl. explicit def
         "random: depth 1-2 trees, default 0 or 7, both formats, shapes, active ranges, k <= 3 co-iterated fibers, outer "
         "iterRange on lazy results. non-trivial = the slice / range / result is non-empty and the case exercises at least one of: "
         "a skipped empty element, a break at the end bound, an element below start, a positive start_pos, an absent coordinate "
-        "filled by the default or inserted, an interval cut, a reversal, an uncompressed rank")
+        "filled by the default or inserted, an interval cut, a reversal, an uncompressed rank. multi-step cases (op seq): on the "
+        "SAME fiber objects a first traversal or read-only call (getActive, getShape, ==, len, project, prune, isEmpty, &), then "
+        "growth (append past the end, assignment through getPayloadRef), then a second traversal; every traversal is compared "
+        "with the model and the spec on the trees as they are at that moment (the model has no hidden state); non-trivial = a "
+        "traversal after growth or after a read-only call")
 
 RANGE_OPS = ["range", "occ", "active", "iter"]
 SHAPE_OPS = ["rshape", "shape", "ashape", "rshaperef", "shaperef", "ashaperef"]
 CO_OPS = ["co" + o for o in SHAPE_OPS]
 OLD_SAVED = 77
+TOUCHES = ("getActive", "getShape", "eq", "len", "project", "prune", "isEmpty", "and")
 
 _attrs = None
 
@@ -182,9 +187,86 @@ def gen_random(seed, tier):
             yield _base("prune", t, pred=pred, sp=sp, os=os_, oe=oe_, **common)
 
 
+# multi-step cases: the same fiber objects are traversed, read, grown and traversed again
+SEQ_FIRST = [{"op": "active"}, {"op": "ashape"}, {"op": "shape"}, {"op": "occ"}, {"op": "iter"}, {"op": "coashape"},
+             {"op": "ashaperef"}] + [{"op": "touch", "what": w} for w in TOUCHES]
+SEQ_SECOND = [{"op": "active"}, {"op": "ashape"}, {"op": "ashaperef"}, {"op": "shape"}, {"op": "iter"},
+              {"op": "coashape"}, {"op": "coashaperef"}, {"op": "occ"}, {"op": "range", "s": 0, "e": None},
+              {"op": "project", "k": 1, "m": 0, "iv": None}, {"op": "prune", "pred": {"kind": "all"}}]
+
+
+def _seq(t, steps, **kw):
+    return _base("seq", t, steps=steps, others=kw.pop("others", []), **kw)
+
+
+def gen_seq_small(tier):
+    n = 3
+    fibs = list(H.all_leaf_fibers(n, [0, 1]))
+    if tier == "quick":
+        fibs = fibs[::2]
+    k = 0
+    for t in fibs:
+        last = t[-1][0] if t else -1
+        grows = [[{"op": "append", "c": last + 2, "v": 4}],
+                 [{"op": "refassign", "c": last + 3, "v": 5}],
+                 [{"op": "refassign", "c": 1, "v": 6}, {"op": "append", "c": max(last, 1) + 1, "v": 0}],
+                 []]
+        for first in SEQ_FIRST:
+            for grow in grows:
+                for second in SEQ_SECOND:
+                    k += 1
+                    if tier == "quick" and k % 3:
+                        continue
+                    for fmt, shape in (("C", None), ("U", None), ("C", 2)):
+                        if fmt == "U" and k % 2:
+                            continue
+                        if shape is not None and k % 5:
+                            continue
+                        yield _seq(t, [dict(first)] + [dict(g) for g in grow] + [dict(second)], fmt=fmt, shape=shape,
+                                   others=[[[1, 3]]])
+
+
+def gen_seq_random(seed, tier):
+    rng = random.Random(seed * 7919 + 13)
+    nrand = 1500 if tier == "quick" else 60000
+    travs = SEQ_SECOND + [{"op": "rshape", "s": -1, "e": 7, "step": 2}, {"op": "corshape", "s": 0, "e": 6, "step": 1},
+                          {"op": "shaperef"}, {"op": "coshape"}]
+    for _ in range(nrand):
+        dflt = rng.choice([0, 0, 7])
+        n = rng.choice([2, 3, 5])
+        t = H.gen_tree(rng, 1, n, (1, 2, -3, 7, 0), dflt)
+        shape, active = _rand_cfg(rng, n)
+        if rng.random() < 0.6:
+            active = None
+        fmt = rng.choice(["C", "C", "U"])
+        steps = []
+        top = t[-1][0] if t else -1
+        for _ in range(rng.choice([2, 3, 4, 6])):
+            r = rng.random()
+            if r < 0.25:
+                top += rng.choice([1, 1, 2, 3])
+                steps.append({"op": "append", "c": top, "v": rng.choice([1, 2, dflt, 0])})
+            elif r < 0.4:
+                c = rng.randrange(-1, top + 4)
+                top = max(top, c)
+                steps.append({"op": "refassign", "c": c, "v": rng.choice([1, 2, dflt, 0])})
+            elif r < 0.55:
+                steps.append({"op": "touch", "what": rng.choice(TOUCHES)})
+            else:
+                st = dict(rng.choice(travs))
+                if st["op"] in ("active", "occ", "range", "iter") and rng.random() < 0.2:
+                    st["sp"] = 0
+                steps.append(st)
+        steps.append(dict(rng.choice(SEQ_SECOND)))
+        others = [H.gen_tree(rng, 1, n, (1, 2, -3, 7, 0), dflt) for _ in range(rng.choice([0, 1, 2]))]
+        yield _seq(t, steps, dflt=dflt, fmt=fmt, shape=shape, active=active, others=others)
+
+
 def gen(seed, tier):
     yield from gen_small(tier)
+    yield from gen_seq_small(tier)
     yield from gen_random(seed, tier)
+    yield from gen_seq_random(seed, tier)
 
 
 # ---------------------------------------------------------------------------------------
@@ -245,18 +327,11 @@ def _pred(spec):
     raise ValueError(kind)
 
 
-def run(case):
+def _traverse(case, op, fibers, side):
+    """one traversal `op` (arguments in `case`) on already built fibers; returns the observation dict"""
     ft = H.ft()
-    op = case["op"]
-    impl, side = {}, {}
-    if op.startswith("co"):
-        built = [_build(case, t) for t in case["ts"]]
-        fibers = [b[0] for b in built]
-        f = fibers[0]
-    else:
-        f, _tensor = _build(case, case["t"])
-        fibers = [f]
-    before = [H.snapshot(x) for x in fibers]
+    f = fibers[0]
+    impl = {}
     sp = case.get("sp")
     try:
         if op in RANGE_OPS:
@@ -290,9 +365,10 @@ def run(case):
             y2 = _pairs(lz)
             for key, ys in (("y1", y1), ("y2", y2)):
                 impl[key] = [[c, [[H.pos_of(fb.payloads, p), H.snapshot(p)] for fb, p in zip(fibers, ps)]] for c, ps in ys]
-            side["second_traversal_same_objects"] = len(y1) == len(y2) and all(
+            same = len(y1) == len(y2) and all(
                 c1 == c2 and all(a is b for a, b in zip(p1, p2)) for (c1, p1), (c2, p2) in zip(y1, y2)) \
                 if op.endswith("ref") else True
+            side["second_traversal_same_objects"] = side.get("second_traversal_same_objects", True) and same
         elif op in ("project", "prune"):
             if op == "project":
                 k, m = case["k"], case["m"]
@@ -311,14 +387,90 @@ def run(case):
                 mat = ft.Fiber.fromLazy(lz)
                 impl["mat"] = H.snapshot(mat)
                 eager = ft.Fiber([c for c, _ in y1], [p for _, p in y1], default=case["dflt"])
-                side["materialises_equal"] = bool(mat == eager)
-            side["lazy_is_lazy"] = bool(lz.isLazy())
+                side["materialises_equal"] = side.get("materialises_equal", True) and bool(mat == eager)
+            side["lazy_is_lazy"] = side.get("lazy_is_lazy", True) and bool(lz.isLazy())
         else:
             raise ValueError(op)
     except AssertionError:
         impl["err"] = "rejected"
     except (Exception, StopIteration) as e:  # a crash is an observation
         impl["err"] = H.err_class(e)
+    return impl
+
+
+def _touch(what, f, dflt):
+    """a read-only public call whose result is not under test here: it must leave no trace"""
+    ft = H.ft()
+    if what == "getActive":
+        f.getActive()
+    elif what == "getShape":
+        f.getShape(all_ranks=False)
+    elif what == "eq":
+        f == ft.Fiber(list(f.coords), [p.value for p in f.payloads], default=dflt)
+    elif what == "len":
+        len(f)
+    elif what == "project":
+        list(f.project(lambda c: c + 1))
+    elif what == "prune":
+        list(f.prune(lambda i, c, p: True))
+    elif what == "isEmpty":
+        f.isEmpty()
+    elif what == "and":
+        list(f & ft.Fiber(list(f.coords), [1 for _ in f.coords]))
+    else:
+        raise ValueError(what)
+
+
+def _run_seq(case):
+    """several steps on the SAME fiber objects: traversals, read-only calls, growth"""
+    fibers = [_build(case, t)[0] for t in [case["t"]] + case.get("others", [])]
+    f = fibers[0]
+    obs, side = [], {}
+    pure = True
+    for st in case["steps"]:
+        op = st["op"]
+        before = [H.snapshot(x) for x in fibers]
+        o = {}
+        if op == "append":
+            try:
+                f.append(st["c"], st["v"])
+            except AssertionError:
+                o["err"] = "rejected"
+        elif op == "refassign":
+            ref = f.getPayloadRef(st["c"])
+            ref <<= st["v"]
+        elif op == "touch":
+            try:
+                _touch(st["what"], f, case["dflt"])
+            except Exception as e:
+                o["err"] = H.err_class(e)
+        else:
+            sub = dict(case)
+            sub.update(st)
+            o = _traverse(sub, op, fibers if op in CO_OPS else [f], side)
+        after = [H.snapshot(x) for x in fibers]
+        o["before_all"], o["after_all"] = before, after
+        o["after"] = after if op in CO_OPS else after[0]
+        if not (op.endswith("ref") or op in ("append", "refassign")):
+            pure = pure and before == after
+        obs.append(o)
+    side["operands_unchanged"] = pure
+    case["impl"] = {"steps": obs}
+    case["side"] = side
+    return case
+
+
+def run(case):
+    op = case["op"]
+    if op == "seq":
+        return _run_seq(case)
+    side = {}
+    if op.startswith("co"):
+        fibers = [_build(case, t)[0] for t in case["ts"]]
+    else:
+        fibers = [_build(case, case["t"])[0]]
+    before = [H.snapshot(x) for x in fibers]
+    impl = _traverse(case, op, fibers, side)
     after = [H.snapshot(x) for x in fibers]
     impl["after"] = after if op.startswith("co") else after[0]
     if not op.endswith("ref"):
@@ -338,6 +490,8 @@ INTERESTING = {"skip-empty", "break", "below-start", "sp+", "absent-coord", "ins
 
 def nontrivial(case, verdict):
     t = set(verdict.get("tags", []))
+    if case["op"] == "seq":
+        return bool(t & {"traversal-after-growth", "traversal-after-touch"})
     if "OUT_OF_MODEL" in t or "illegal-start" in t:
         return False
     if t & {"slice-empty", "range-empty", "result-empty"} or any(x.startswith("model-") for x in t):
@@ -351,10 +505,29 @@ def signature(case, verdict, failed):
     op = case["op"]
     err = (case.get("impl") or {}).get("err")
     fl = "/".join(sorted(failed))
+    if op == "seq":
+        why = verdict.get("why", "")
+        return f"seq:{fl}:{why.split(':')[0][:40]}"
     return f"{op}:{fl}:{err or 'no-exception'}"
 
 
 def shrink_candidates(case):
+    if case["op"] == "seq":
+        st = case["steps"]
+        for i in range(len(st) - 1):
+            c = dict(case)
+            c["steps"] = st[:i] + st[i + 1:]
+            yield c
+        if case.get("others"):
+            c = dict(case)
+            c["others"] = case["others"][:-1]
+            yield c
+        t = case["t"]
+        for i in range(len(t)):
+            c = dict(case)
+            c["t"] = t[:i] + t[i + 1:]
+            yield c
+        return
     key = "ts" if case["op"].startswith("co") else "t"
     if key == "t":
         t = case["t"]
